@@ -122,7 +122,7 @@ pub fn gen_from_seed(gseed: u64, with_bug: bool, r: &mut Rng, scale: usize) -> B
             match b {
                 "deep-nesting" | "deep-nesting-closed" => *r.pick(&[2usize, 10, 100, 1200, 3000]),
                 "many-layers" => *r.pick(&[10usize, 300, 3000]),
-                "many-frames-high-layer" => *r.pick(&[2usize, 20]),
+                "many-frames-high-layer" => *r.pick(&[2usize, 3, 4, 20, 21, 22]),
                 "many-tags" => *r.pick(&[10usize, 1000]),
                 "deflate-bomb" => 1,
                 "link-chain" => *r.pick(&[6usize, 7, 8, 9, 10, 11, 40, 41, 42, 43, 46, 47, 700, 702]),
@@ -592,7 +592,7 @@ fn special_items(ctx: &Ctx, prop: &str) -> Vec<(String, usize)> {
             for mb in if q { vec![1usize, 8, 80] } else { vec![1, 8, 80, 200, 600] } {
                 v.push(("deflate-bomb".into(), mb));
             }
-            for n in if q { vec![100usize, 2000] } else { vec![100, 2000, 20_000, 65_535] } {
+            for n in if q { vec![100usize, 2000, 2001, 2002] } else { vec![100, 2000, 2001, 2002, 20_000, 20_001, 20_002, 65_533, 65_534, 65_535] } {
                 v.push(("many-frames-high-layer".into(), n));
             }
             for n in if q { vec![1000usize] } else { vec![1000, 30_000, 65_535] } {
@@ -657,7 +657,7 @@ fn special_items(ctx: &Ctx, prop: &str) -> Vec<(String, usize)> {
             for n in if q { vec![30_000usize, 30_001, 30_002, 300_000] } else { vec![3000, 3001, 3002, 30_000, 30_001, 30_002, 300_000, 300_001, 300_002, 2_000_001] } {
                 v.push(("userdata-props-deep".into(), n));
             }
-            for n in if q { vec![50usize] } else { vec![50, 2000] } {
+            for n in if q { vec![50usize, 51, 52] } else { vec![50, 51, 52, 2000, 2001, 2002] } {
                 v.push(("many-frames-high-layer".into(), n));
             }
             for n in if q { vec![9000usize, 9001, 30_000, 30_001, 30_002, 30_003, 30_004, 30_005, 304, 305] } else { vec![9000, 9001, 30_000, 30_001, 30_002, 30_003, 30_004, 30_005, 304, 305, 65_526, 65_527, 65_532, 65_533, 65_534, 65_535] } {
